@@ -118,6 +118,15 @@ def uval(i):
     return 'u' + format(i, 'x')
 
 
+class FalsyStr(str):
+    """A value that is valid and NOT empty but tests false (like the epoch 0 for a date argument, 0 for a
+    number, an empty mapping for Metadata): routing must depend on the NAME being present, never on
+    the value's truthiness."""
+
+    def __bool__(self):
+        return False
+
+
 def canon_val(name, v, expected_src=None):
     if isinstance(v, str) and re.fullmatch(r'u[0-9a-f]+', v):
         return 'U:' + v[1:]
@@ -547,6 +556,11 @@ def gen_cases(ctx):
         cases.append(('cell', mode, {}, size_for(mode)))
         for j, a in enumerate(allowed_of(mode)):
             cases.append(('cell', mode, {a: fresh()}, size_for(mode, j)))
+    # A'. every allowed name alone with a value that tests false
+    for mode in modes:
+        for j, a in enumerate(allowed_of(mode)):
+            if ctx.thorough() or j % 2 == 0 or a.startswith('CopySource'):
+                cases.append(('falsy', mode, {a: FalsyStr(fresh())}, size_for(mode, j)))
     # B. all ordered pairs (thorough: and triples) around the checksum names, every upload mode
     from s3transfer.constants import FULL_OBJECT_CHECKSUM_ARGS
     ck = ['ChecksumAlgorithm', 'ChecksumType', 'MpuObjectSize'] + list(FULL_OBJECT_CHECKSUM_ARGS)
